@@ -262,14 +262,15 @@ class Resolver:
 
         # handle recursive
         if name == "**":
+            # a dead end below one of the candidate nodes is a non-match of that candidate, never an error:
+            # the remainder is evaluated without raising, so that a dead end in one branch below a candidate
+            # does not discard the matches found in its other branches
+            resolver = self if self.relax else Resolver(self.pathattr, self.ignorecase, relax=True)
             matches = []
             for subnode in PreOrderIter(node):
-                try:
-                    for match in self.__glob(subnode, remainder):
-                        if not any(match is other for other in matches):
-                            matches.append(match)
-                except ResolverError:
-                    pass
+                for match in resolver.__glob(subnode, remainder):
+                    if not any(match is other for other in matches):
+                        matches.append(match)
             return matches
 
         matches = self.__find(node, name, remainder)
